@@ -258,4 +258,218 @@ theorem readOuts_canonical {k : Nat} {bs : Bytes} {acc res : List TxOut} {rest :
           refine this.symm.trans ?_
           simp [encodeOuts, encodeOut, List.append_assoc]
 
+/-! ## Stage 3: inputs and the whole transaction -/
+
+structure TxIn where
+  prev : Bytes
+  script : Bytes
+  seq : Bytes
+  deriving DecidableEq, Repr
+
+def InWF (i : TxIn) : Prop := i.prev.length = 36 ∧ i.script.length ≤ maxScript ∧ i.seq.length = 4
+
+def encodeIn (i : TxIn) : Bytes := i.prev ++ (encodeScript i.script ++ i.seq)
+
+def encodeIns : List TxIn → Bytes
+  | [] => []
+  | i :: is => encodeIn i ++ encodeIns is
+
+theorem readIns_encode (ins : List TxIn) (rest : Bytes) (h : ∀ i ∈ ins, InWF i) :
+    readIns ins.length (encodeIns ins ++ rest) = some rest := by
+  induction ins with
+  | nil => simp [encodeIns, readIns]
+  | cons i is ih =>
+    obtain ⟨hp, hs, hq⟩ := h i (by simp)
+    have hbs : encodeIns (i :: is) ++ rest
+        = i.prev ++ (encodeScript i.script ++ (i.seq ++ (encodeIns is ++ rest))) := by
+      simp [encodeIns, encodeIn, List.append_assoc]
+    rw [hbs, List.length_cons]
+    simp only [readIns]
+    rw [if_neg (by simp only [List.length_append, hp]; omega), drop_left hp, readScript_encode hs]
+    simp only
+    rw [if_neg (by simp only [List.length_append, hq]; omega), drop_left hq,
+      ih (fun o' ho' => h o' (by simp [ho']))]
+
+theorem readIns_canonical {k : Nat} {bs rest : Bytes} (h : readIns k bs = some rest) :
+    ∃ ins : List TxIn, ins.length = k ∧ (∀ i ∈ ins, InWF i) ∧ bs = encodeIns ins ++ rest := by
+  induction k generalizing bs with
+  | zero =>
+    simp only [readIns, Option.some.injEq] at h
+    exact ⟨[], rfl, by simp, by simp [encodeIns, h]⟩
+  | succ k ih =>
+    simp only [readIns] at h
+    split at h
+    · simp at h
+    · rename_i hlen
+      split at h
+      · simp at h
+      · rename_i sc r hsc
+        split at h
+        · simp at h
+        · rename_i hlen4
+          obtain ⟨hscl, hdrop⟩ := readScript_canonical hsc
+          obtain ⟨ins, hk, hwf, hr⟩ := ih h
+          refine ⟨{ prev := bs.take 36, script := sc, seq := r.take 4 } :: ins, by simp [hk], ?_, ?_⟩
+          · intro i hi
+            rcases List.mem_cons.mp hi with rfl | hi
+            · refine ⟨?_, hscl, ?_⟩
+              · simp; omega
+              · simp; omega
+            · exact hwf i hi
+          · have h1 := List.take_append_drop 36 bs
+            have h2 := List.take_append_drop 4 r
+            rw [hdrop, ← h2, hr] at h1
+            refine h1.symm.trans ?_
+            simp [encodeIns, encodeIn, List.append_assoc]
+
+theorem encodeIns_length (ins : List TxIn) (h : ∀ i ∈ ins, InWF i) :
+    ins.length * 41 ≤ (encodeIns ins).length := by
+  induction ins with
+  | nil => simp
+  | cons i is ih =>
+    obtain ⟨hp, _, hq⟩ := h i (by simp)
+    have := ih (fun o' ho' => h o' (by simp [ho']))
+    have := encodeScript_pos i.script
+    simp only [encodeIns, encodeIn, List.length_append, List.length_cons, hp, hq]
+    omega
+
+theorem encodeOuts_length (os : List TxOut) : os.length * 9 ≤ (encodeOuts os).length := by
+  induction os with
+  | nil => simp
+  | cons o os ih =>
+    have := encodeScript_pos o.pkScript
+    simp only [encodeOuts, encodeOut, List.length_append, List.length_cons, leBytes_length]
+    omega
+
+structure Tx where
+  version : Bytes
+  ins : List TxIn
+  outs : List TxOut
+  lock : Bytes
+
+def Tx.WF (tx : Tx) : Prop :=
+  tx.version.length = 4 ∧ tx.lock.length = 4 ∧ tx.ins.length ≤ maxTxIn ∧ tx.outs.length ≤ maxTxOut ∧
+    (∀ i ∈ tx.ins, InWF i) ∧ (∀ o ∈ tx.outs, OutWF o)
+
+def serialize (tx : Tx) : Bytes :=
+  tx.version ++ (encodeVarInt tx.ins.length ++ (encodeIns tx.ins ++
+    (encodeVarInt tx.outs.length ++ (encodeOuts tx.outs ++ tx.lock))))
+
+theorem maxTxIn_lt : maxTxIn < 2 ^ 64 := by decide
+theorem maxTxOut_lt : maxTxOut < 2 ^ 64 := by decide
+
+theorem parse_serialize {tx : Tx} (h : tx.WF) : parseNoWitness (serialize tx) = some tx.outs := by
+  obtain ⟨hv, hl, hni, hno, hi, ho⟩ := h
+  have h1 := encodeIns_length tx.ins hi
+  have h2 := encodeOuts_length tx.outs
+  simp only [parseNoWitness, serialize, bind, Option.bind]
+  rw [if_neg (by simp only [List.length_append, hv]; omega), drop_left hv,
+    readVarInt_encode _ _ (Nat.lt_of_le_of_lt hni maxTxIn_lt)]
+  simp only
+  rw [if_neg (by omega), if_neg (by simp only [List.length_append]; omega),
+    readIns_encode _ _ hi]
+  simp only
+  rw [readVarInt_encode _ _ (Nat.lt_of_le_of_lt hno maxTxOut_lt)]
+  simp only
+  rw [if_neg (by omega), if_neg (by simp only [List.length_append]; omega),
+    readOuts_encode _ _ [] ho]
+  simp [hl]
+
+/-- every accepted raw transaction is the canonical serialization of exactly one well-formed
+transaction: the byte string hashed into the txid is determined by the parsed structure -/
+theorem parse_canonical {bs : Bytes} {outs : List TxOut} (h : parseNoWitness bs = some outs) :
+    ∃ tx : Tx, tx.WF ∧ tx.outs = outs ∧ bs = serialize tx := by
+  simp only [parseNoWitness, bind, Option.bind] at h
+  split at h
+  · simp at h
+  · rename_i hlen
+    cases hv1 : readVarInt (bs.drop 4) with
+    | none => rw [hv1] at h; simp at h
+    | some p1 =>
+      obtain ⟨nin, r1⟩ := p1
+      rw [hv1] at h; simp only at h
+      split at h
+      · simp at h
+      split at h
+      · simp at h
+      rename_i hnin hg1
+      cases hri : readIns nin r1 with
+      | none => rw [hri] at h; simp at h
+      | some r2 =>
+        rw [hri] at h; simp only at h
+        cases hv2 : readVarInt r2 with
+        | none => rw [hv2] at h; simp at h
+        | some p2 =>
+          obtain ⟨nout, r3⟩ := p2
+          rw [hv2] at h; simp only at h
+          split at h
+          · simp at h
+          split at h
+          · simp at h
+          rename_i hnout hg2
+          cases hro : readOuts nout r3 [] with
+          | none => rw [hro] at h; simp at h
+          | some p3 =>
+            obtain ⟨os, r4⟩ := p3
+            rw [hro] at h; simp only at h
+            split at h
+            · simp at h
+            rename_i hr4
+            simp only [Option.some.injEq] at h
+            subst h
+            obtain ⟨_, e1⟩ := readVarInt_canonical hv1
+            obtain ⟨ins, hil, hiw, e2⟩ := readIns_canonical hri
+            obtain ⟨_, e3⟩ := readVarInt_canonical hv2
+            obtain ⟨os', hol, hos, how, e4⟩ := readOuts_canonical hro
+            simp only [List.reverse_nil, List.nil_append] at hos
+            subst hos
+            refine ⟨{ version := bs.take 4, ins := ins, outs := os, lock := r4 }, ?_, rfl, ?_⟩
+            · refine ⟨?_, Decidable.not_not.mp hr4, by simp only; omega, by simp only; omega, hiw, how⟩
+              simp; omega
+            · have h0 := List.take_append_drop 4 bs
+              rw [e1, e2, e3, e4] at h0
+              refine h0.symm.trans ?_
+              simp only [serialize, hil, hol]
+
+theorem parse_outs_bounded {bs : Bytes} {outs : List TxOut} (h : parseNoWitness bs = some outs) :
+    ∀ o ∈ outs, o.value < 2 ^ 64 ∧ o.pkScript.length ≤ maxScript := by
+  obtain ⟨tx, hwf, rfl, _⟩ := parse_canonical h
+  exact hwf.2.2.2.2.2
+
+/-! ## Non-vacuity -/
+
+example : readVarInt (encodeVarInt 70000 ++ [7]) = some (70000, [7]) := by decide
+example : readVarInt [0xfd, 0x10, 0x00] = none := by decide  -- non-canonical 16 as 3 bytes
+
+def demoTx : Tx :=
+  { version := [2, 0, 0, 0]
+    ins := [{ prev := List.replicate 36 0xab, script := [0x51], seq := [0xff, 0xff, 0xff, 0xff] }]
+    outs := [{ value := 5000000000, pkScript := [0x6a] }, { value := 1, pkScript := [0x00, 0x14] }]
+    lock := [0, 0, 0, 0] }
+
+example : parseNoWitness (serialize demoTx) = some demoTx.outs := by decide
+example : (serialize demoTx).length = 4 + 1 + (36 + 2 + 4) + 1 + (8 + 2) + (8 + 3) + 4 := by decide
+example : demoTx.WF := by
+  refine ⟨rfl, rfl, by decide, by decide, ?_, ?_⟩
+  · intro i hi
+    simp only [demoTx, List.mem_singleton] at hi
+    subst hi
+    exact ⟨by decide, by decide, by decide⟩
+  · intro o ho
+    simp only [demoTx, List.mem_cons, List.not_mem_nil, or_false] at ho
+    rcases ho with rfl | rfl <;> exact ⟨by decide, by decide⟩
+
+#print axioms readVarInt_encode
+#print axioms readVarInt_canonical
+#print axioms readVarInt_shorter
+#print axioms readScript_encode
+#print axioms readScript_canonical
+#print axioms readOuts_encode
+#print axioms readOuts_canonical
+#print axioms readIns_encode
+#print axioms readIns_canonical
+#print axioms parse_serialize
+#print axioms parse_canonical
+#print axioms parse_outs_bounded
+
 end Goat.C03T
